@@ -133,3 +133,42 @@ Lemma xneed_uniform o xs k :
   | _ => xneed o xs k <= k
   end.
 Proof. destruct o as [[]| | ? []|]; cbn; try exact I; try lia; destruct k; lia. Qed.
+
+(* ---- what the harness observes: `pipeline.take(k)` consumed to the end ---------------------- *)
+Lemma drain_mono : forall f l0 i0 s0 sres, drain f s0 i0 = (sres, Ok l0) -> forall f', f <= f' -> drain f' s0 i0 = (sres, Ok l0).
+Proof.
+  induction f as [|f IHf]; intros l0 i0 s0 sres R f' Lf; [discriminate R|]. destruct f' as [|f']; [lia|].
+  cbn [drain] in *. destruct (next f s0 i0) as [s1 o] eqn:En. destruct o; try discriminate R.
+  - rewrite (next_yield_mono _ f' _ _ _ _ _ En ltac:(lia)).
+    destruct (drain f s1 i) as [s3 [l3| | |]] eqn:Ed; try discriminate R.
+    rewrite (IHf _ _ _ _ Ed f' ltac:(lia)). exact R.
+  - rewrite (next_done_mono _ f' _ _ _ En ltac:(lia)). exact R.
+Qed.
+
+Lemma drain_cost l : forall i dp dt i' ep et, StepsD i l dp dt i' -> EndsD i' ep et ->
+  forall s, exists fuel, drain fuel s i = (plus_st s (dp + ep) (dt + et), Ok l).
+Proof.
+  induction l as [|v r IH]; intros i dp dt i' ep et HS E s.
+  - destruct HS as (-> & -> & ->). destruct (E s) as [fu F]. exists (S fu). cbn [drain]. rewrite F. reflexivity.
+  - destruct HS as (j & a & b & c & d & Y & HS & -> & ->).
+    destruct (yields_at _ _ _ _ _ Y s) as [f1 F1]. destruct (IH _ _ _ _ _ _ HS E (plus_st s a b)) as [f2 F2].
+    exists (S (Nat.max f1 f2)). cbn [drain]. rewrite F1 by lia. rewrite (drain_mono _ _ _ _ _ F2) by lia.
+    rewrite plus_st_plus. f_equal. apply plus_st_eq; lia.
+Qed.
+
+(* evaluating `pipeline.take(k)` to the end costs exactly the demand of its k results: the take
+   reports the end without touching its input again *)
+Theorem take_k_drain ops k0 n k s :
+  let xs := src_prefix k0 n in
+  k <= length (xouts_all ops xs) ->
+  exists fuel s',
+    drain fuel s (ISlice 0 (Some k) (xbuild_all ops (Src k0))) = (s', Ok (firstn k (xouts_all ops xs))) /\
+    pulls s' = pulls s + xneed_all ops xs k /\ ticks s' = ticks s + xtks_all ops xs k.
+Proof.
+  intros xs L. destruct (xpipeline_like ops _ _ _ _ (src_like k0 n) k L) as [i' HS]. fold xs in HS.
+  assert (Lk : length (firstn k (xouts_all ops xs)) <= k) by (rewrite firstn_length; lia).
+  pose proof (take_steps _ k _ _ _ _ HS Lk) as T. rewrite firstn_length in T.
+  replace (k - Nat.min k (length (xouts_all ops xs))) with 0 in T by lia.
+  destruct (drain_cost _ _ _ _ _ _ _ T (take_stops i') s) as [fuel D].
+  exists fuel, (plus_st s (xneed_all ops xs k + 0) (0 + xtks_all ops xs k + 0)). split; [exact D|]. cbn. lia.
+Qed.
